@@ -3,7 +3,8 @@
    its n-1 generators commute and are independent. *)
 From Coq Require Import List Bool Arith Lia.
 From SQ Require Import Base.ListUtil Stab.Pauli Stab.Kernels Stab.Gates Stab.Tableau Stab.Group Stab.GroupGates
-  Stab.MulProof Stab.GaussProof Stab.MeasureProof Stab.TensorProof Stab.PermProof Stab.MeasureOrig.
+  Stab.MulProof Stab.GaussProof Stab.MeasureProof Stab.TensorProof Stab.PermProof Stab.MeasureOrig
+  Stab.F2 Stab.Rref Stab.GaussIndep Stab.Bridge.
 Import ListNotations.
 
 (* delete the two columns of the (front) measured qubit *)
@@ -242,3 +243,97 @@ Section CoreIndep.
       congruence.
   Qed.
 End CoreIndep.
+
+(* ---------- assembled: destructive measurement, random branch, original frame ------------------------------ *)
+Lemma pcons_inj x a b : pcons x a = pcons x b -> a = b.
+Proof. destruct a, b. unfold pcons; cbn [fst snd]. intro H. injection H as -> ->. reflexivity. Qed.
+
+Theorem meas_random_destructive n p coin t : p < n -> wf_tab n t -> commuting n t -> random_branch n p t = true ->
+  exists res resd,
+    measure n p true coin t = (coin, n, res) /\ measure n p false coin t = (coin, n - 1, resd) /\
+    wf_tab (n - 1) resd /\ commuting (n - 1) resd /\ length resd = length t - 1 /\
+    (forall g, gen (n - 1) resd g <->
+       exists g', gen n res g' /\ nth p (snd g') PI = PI /\ g = (fst g', remove_at p (snd g'))) /\
+    (independent n t -> independent n res /\ independent (n - 1) resd).
+Proof.
+  intros Hp Hw Hc Hr.
+  assert (Hn : 1 <= n) by lia.
+  assert (Wf : wf_tab n (framed n p t)) by (apply perm_wf; auto).
+  assert (Cf : commuting n (framed n p t)) by (apply perm_commuting; auto).
+  destruct (meas_random_framed n p coin t Hn Wf Cf Hr) as (Em & Gt & R0 & Rrest & Gci).
+  pose proof (measure_random_destructive n p coin t Hr) as Ed.
+  set (tmp := eliminated n p t) in *.
+  assert (Wt : wf_tab n tmp) by (apply gauss_wf; auto).
+  assert (Ct : commuting n tmp) by (apply gauss_commuting; auto).
+  assert (Lt : length tmp = length t).
+  { unfold tmp, eliminated. rewrite gauss_length by auto. unfold framed. apply map_length. }
+  destruct tmp as [|r0 R] eqn:Etmp; [unfold get in R0; simpl in R0; discriminate|].
+  cbn [skipn] in *. cbn [nth] in R0.
+  assert (HR : forall r, In r R -> get r 0 = false).
+  { intros r Hin. apply (@In_nth row _ _ []) in Hin. destruct Hin as (j & Hj & <-).
+    apply (Rrest (S j)). simpl. lia. }
+  assert (WR : forall r, In r R -> wf_row n r).
+  { intros r Hin. unfold wf_tab in Wt. rewrite Forall_forall in Wt. apply Wt. right; auto. }
+  set (CI := core_inplace n coin (r0 :: R)) in *.
+  set (CR := map (core_row n coin) R).
+  set (D := map (dest_row n coin) R) in *.
+  assert (ECI : CI = zrow n coin :: CR) by reflexivity.
+  assert (Wci : wf_tab n CI) by (apply core_inplace_wf; auto).
+  assert (Hcd : forall r, In r R -> decode_ph n (core_row n coin r) = pcons PI (decode_ph (n - 1) (dest_row n coin r))).
+  { intros r Hin. apply dest_core; auto. }
+  (* commuting of the in-place rows *)
+  assert (CRr : commuting n R).
+  { apply (commuting_of_in n (r0 :: R)); auto. intros r Hin. right; auto. }
+  assert (CU : commuting n (zrow n coin :: R)).
+  { apply commuting_cons; auto. intros r Hin. rewrite symp_decode.
+    change (snd (decode n (zrow n coin))) with (snd (decode_ph n (zrow n coin))). rewrite decode_zrow' by auto. cbn [snd].
+    rewrite anti_l_sym. change (snd (decode n r)) with (snd (decode_ph n r)). rewrite anti_row_z0 by auto. auto. }
+  assert (Cci : commuting n CI).
+  { apply (commuting_of_gen n (zrow n coin :: R)); auto. intros r Hin. apply Gci. apply gen_row; auto. }
+  assert (Ccr : commuting n CR).
+  { apply (commuting_of_in n CI); auto. intros r Hin. rewrite ECI. right; auto. }
+  (* elements of <CR> have I in front, hence commute with Z_0 *)
+  assert (Cent : forall h, gen n CR h -> anti_l (snd h) (snd (decode_ph n (zrow n coin))) = false).
+  { intros h Gh. apply (lift0_fwd n Hn R _ _ Hcd) in Gh. destruct Gh as (g2 & _ & ->).
+    rewrite decode_zrow' by auto. unfold pcons, z0. cbn [snd anti_l]. rewrite anti_l_repeat_PI_r. reflexivity. }
+  exists (map (unperm_row n p) CI), D. split; [exact Em|]. split; [exact Ed|].
+  split.
+  { unfold wf_tab. rewrite Forall_forall. intros r Hin. apply in_map_iff in Hin. destruct Hin as (r1 & <- & Hin).
+    apply dest_row_wf; auto. }
+  split; [apply (lift0_commuting n R _ _ Hcd); auto|].
+  split; [unfold D; rewrite map_length; simpl in Lt; lia|].
+  split.
+  - intro g. split.
+    + intro Gg.
+      assert (Lg : length (snd g) = n - 1) by (eapply gen_length; eauto).
+      exists (punframe p (pcons PI g)).
+      assert (E1 : pframe p (punframe p (pcons PI g)) = pcons PI g).
+      { apply pframe_punframe. unfold pcons; cbn [snd length]. lia. }
+      split; [|split].
+      * apply (unperm_group n p CI Hp Wci). exists (pcons PI g). split; auto.
+        rewrite ECI. apply gen_tail. apply (lift0_bwd n Hn R _ _ Hcd). auto.
+      * change (nth p (snd (punframe p (pcons PI g))) PI) with (hd PI (snd (pframe p (punframe p (pcons PI g))))).
+        rewrite E1. reflexivity.
+      * change (remove_at p (snd (punframe p (pcons PI g)))) with (tl (snd (pframe p (punframe p (pcons PI g))))).
+        rewrite E1. destruct g; reflexivity.
+    + intros (g' & Gg' & Hnth & ->).
+      apply (unperm_group n p CI Hp Wci) in Gg'. destruct Gg' as (g1 & G1 & ->).
+      assert (L1 : length (snd g1) = n) by (eapply gen_length; eauto).
+      change (nth p (snd (punframe p g1)) PI) with (hd PI (snd (pframe p (punframe p g1)))) in Hnth.
+      change (remove_at p (snd (punframe p g1))) with (tl (snd (pframe p (punframe p g1)))).
+      rewrite pframe_punframe in * by lia.
+      replace (fst (punframe p g1)) with (fst g1) by reflexivity.
+      rewrite ECI in G1. apply (gen_cons_central n _ CR Cent) in G1. destruct G1 as (h & Gh & E).
+      apply (lift0_fwd n Hn R _ _ Hcd) in Gh. destruct Gh as (g2 & G2 & ->).
+      destruct E as [->| ->].
+      * destruct g2; exact G2.
+      * exfalso. rewrite decode_zrow' in Hnth by auto. unfold pmul, pcons, z0 in Hnth. cbn [snd pmul_l hd pmul1] in Hnth.
+        discriminate Hnth.
+  - intro Hi.
+    assert (Ifr : independent n (framed n p t)) by (apply perm_independent; auto).
+    assert (Itmp : independent n (r0 :: R)).
+    { rewrite <- Etmp. unfold tmp, eliminated. apply gauss_independent; auto. }
+    assert (Ici : independent n CI) by (apply core_inplace_independent; auto).
+    split; [apply unperm_independent; auto|].
+    apply (lift0_independent n Hn R _ _ Hcd). rewrite ECI in Ici. eapply independent_tail; eauto.
+Qed.
